@@ -5,7 +5,9 @@
 // (ScriptSock::send_hook), every FastFlow atomic of the outbound queue (ff_shim.hpp), sched_yield in the blocking pop.
 // All schedules up to a preemption bound; oracle on every complete execution.  The `tsan` variant runs the same schedules
 // with ThreadSanitizer watching (the scheduler's hand-offs are invisible to it, see sched.cpp).
-// args: pm=t|p  ops=<script per thread, comma separated; s = send, b = send_batch of 2, B = send_batch of 3>  pk=m|f  bound=<n>  start=<first number>
+// args: pm=t|p  ops=<script per thread, comma separated; s = send, b = send_batch of 2, B = send_batch of 3, r = process one inbound
+//       in-sequence Heartbeat as the reader thread would (at most one thread with r steps)>  pk=m|f  bound=<n>  start=<first number>
+// With pk=f the store's lseek/read/write calls are scheduling points too and the files are reopened by a fresh FilePersister at the end.
 #include <fix8/f8includes.hpp>
 #include "utest_types.hpp"
 #include "utest_router.hpp"
@@ -27,6 +29,7 @@ static std::vector<std::string> SCRIPTS;
 static unsigned START = 1;
 static Ses25 *ses;
 static std::atomic<int> wire_msgs;
+static int inbound_done;
 struct OpRes { std::vector<std::string> ids; bool ok = false; size_t n = 0; };
 static std::vector<std::vector<OpRes>> res;
 
@@ -34,6 +37,13 @@ static std::vector<std::vector<OpRes>> res;
 // reported while it ran, also when executions share one process
 static std::atomic<int> tsan_reports;
 extern "C" void __tsan_on_report(void *) { ++tsan_reports; }
+
+// the file store's system calls are scheduling points (a seek and the write that follows it are two steps)
+#include <sys/syscall.h>
+extern "C" off_t lseek(int fd, off_t off, int whence) { if (fd > 2) vs_point(9003); return (off_t)syscall(SYS_lseek, fd, off, whence); }
+extern "C" off_t lseek64(int fd, off_t off, int whence) { if (fd > 2) vs_point(9003); return (off_t)syscall(SYS_lseek, fd, off, whence); }
+extern "C" ssize_t write(int fd, const void *b, size_t n) { if (fd > 2) vs_point(9004); return (ssize_t)syscall(SYS_write, fd, b, n); }
+extern "C" ssize_t read(int fd, void *b, size_t n) { if (fd > 2) vs_point(9005); return (ssize_t)syscall(SYS_read, fd, b, n); }
 
 static Message *nos(const std::string& id)
 {
@@ -52,6 +62,10 @@ static void *sender(void *a)
 	const std::string& sc = SCRIPTS[t];
 	for (size_t o = 0; o < sc.size(); ++o) {
 		OpRes& r = res[t][o];
+		if (sc[o] == 'r') {	// inbound Heartbeat carrying the expected number, handed to Session::process as the reader thread does
+			sim::Hdr h; h.type = "0"; h.sender = "SRV"; h.target = "CLI"; h.seq = (long)++inbound_done;
+			r.ok = ses->process(sim::mk("FIX.4.2", h, "")); r.n = 0; continue;
+		}
 		const int n = sc[o] == 's' ? 1 : sc[o] == 'b' ? 2 : 3;
 		for (int e = 0; e < n; ++e) r.ids.push_back("T" + std::to_string(t) + "O" + std::to_string(o) + "E" + std::to_string(e));
 		if (sc[o] == 's') { r.ok = ses->send(nos(r.ids[0]), true); r.n = r.ok ? 1 : 0; }
@@ -62,7 +76,7 @@ static void *sender(void *a)
 
 static std::string body()
 {
-	wire_msgs = 0; const int reports_before = tsan_reports;
+	wire_msgs = 0; inbound_done = 0; const int reports_before = tsan_reports;
 	res.assign(SCRIPTS.size(), std::vector<OpRes>(8));
 	sim::ScriptSock *sock = new sim::ScriptSock;
 	sock->send_hook = [](const void *b, int len) -> int {
@@ -83,7 +97,7 @@ static std::string body()
 	ClientConnection *conn = new ClientConnection(ps, addr, *ses, 30, PM == 'p' ? pm_pipeline : pm_thread, true, false);
 	ses->_connection = conn; ses->_next_send_seq = START; ses->_next_receive_seq = 1; ses->_state = States::st_continuous; ses->_active = true;
 	if (PM == 'p') conn->_writer.start();
-	size_t total = 0; for (auto& s : SCRIPTS) for (char c : s) total += c == 's' ? 1 : c == 'b' ? 2 : 3;
+	size_t total = 0; for (auto& s : SCRIPTS) for (char c : s) total += c == 's' ? 1 : c == 'b' ? 2 : c == 'B' ? 3 : 0;
 	pthread_t pt[8];
 	for (long i = 0; i < (long)SCRIPTS.size(); ++i) pthread_create(&pt[i], 0, sender, (void *)i);
 	for (size_t i = 0; i < SCRIPTS.size(); ++i) pthread_join(pt[i], 0);
@@ -103,7 +117,7 @@ static std::string body()
 	std::multiset<std::string> sent, seen;
 	for (size_t t = 0; t < SCRIPTS.size(); ++t) for (size_t o = 0; o < SCRIPTS[t].size(); ++o) {
 		for (auto& id : res[t][o].ids) sent.insert(id);
-		if (!res[t][o].ok && verdict.empty()) verdict = "send-succeeds|send of " + res[t][o].ids[0] + " reported failure (" + std::to_string(res[t][o].n) + " written)";
+		if (!res[t][o].ok && verdict.empty()) verdict = res[t][o].ids.empty() ? std::string("inbound-processed|Session::process refused an in-sequence Heartbeat") : "send-succeeds|send of " + res[t][o].ids[0] + " reported failure (" + std::to_string(res[t][o].n) + " written)";
 	}
 	for (size_t i = 0; i < wire.size(); ++i) {
 		const std::string sq = sim::tagval(wire[i], 34), id = sim::tagval(wire[i], 11);
@@ -123,8 +137,19 @@ static std::string body()
 	if (verdict.empty()) {
 		f8String extra; if (per->get(START + wire.size(), extra)) verdict = "stored-copy-is-transmitted-message|store holds a record under " + std::to_string(START + wire.size()) + " that was never transmitted";
 		unsigned cs = 0, cr = 0; const bool g = per->get(cs, cr);
-		if (verdict.empty() && (!g || cs != START + wire.size() || cr != 1)) verdict = "control-record-follows|control record (" + std::to_string(cs) + "," + std::to_string(cr) + ") after " + std::to_string(wire.size()) + " messages from " + std::to_string(START);
+		if (verdict.empty() && (!g || cs != START + wire.size() || cr != 1u + inbound_done)) verdict = "control-record-follows|control record (" + std::to_string(cs) + "," + std::to_string(cr) + ") after " + std::to_string(wire.size()) + " messages from " + std::to_string(START);
 		if (verdict.empty() && ses->_next_send_seq != START + wire.size()) verdict = "unique-consecutive-seqnums|next outbound number " + std::to_string((unsigned)ses->_next_send_seq) + " after " + std::to_string(wire.size()) + " messages";
+	}
+	if (PK == 'f' && verdict.empty()) {	// what a restarted process would find: a fresh FilePersister on the same files
+		FilePersister re(0); const bool opened = re.initialise(".", dbn, false);
+		if (getenv("C25_DEBUG")) { unsigned l = 0; re.get_last_seqnum(l); fprintf(stderr, "reopen %s: opened=%d last=%u index=%zu\n", dbn.c_str(), (int)opened, l, re._index.size()); }
+		for (size_t i = 0; i < wire.size() && verdict.empty(); ++i) {
+			f8String stored; const bool got = re.get(START + i, stored);
+			if (!got || stored != wire[i]) verdict = "stored-copy-is-transmitted-message|after reopening the store files, store[" + std::to_string(START + i) + "] = " + (got ? vh::show(stored.substr(0, 160)) : std::string("<absent>")) + " wire = " + vh::show(wire[i].substr(0, 160));
+		}
+		unsigned cs = 0, cr = 0; const bool g = re.get(cs, cr);
+		if (verdict.empty() && (!g || cs != START + wire.size() || cr != 1u + inbound_done)) verdict = "control-record-follows|after reopening the store files the control record is (" + std::to_string(cs) + "," + std::to_string(cr) + ")";
+		re.stop();
 	}
 	// ---- teardown
 	ses->_connection = nullptr;
